@@ -560,22 +560,31 @@ def dump_repo(conn, normfn=None):
     return out
 
 
-def enable_query(conn):
+def enable_query(conn, shared=False):
     """Give the mock server a (stub) query engine: 'select * from <class>'
     returns the instances of the class and its subclasses.  The mock's own
     ExecQuery provider method always raises CIM_ERR_NOT_SUPPORTED; it is
-    documented as the place where a user plugs in an implementation."""
+    documented as the place where a user plugs in an implementation.
+    shared=True: the engine keeps one result list per (namespace, class),
+    refreshes it in place on every call and hands out that same list object
+    (an engine with a result cache)."""
     import re as _re
     from pywbem import CIMError, CIM_ERR_INVALID_QUERY
     mp = conn._mainprovider  # noqa
+    cache = {}
 
     def ExecQuery(namespace, QueryLanguage, Query):
         m = _re.search(r'\bfrom\s+([A-Za-z_][A-Za-z0-9_]*)', Query or '',
                        _re.I)
         if not m:
             raise CIMError(CIM_ERR_INVALID_QUERY, 'no FROM clause')
-        return mp.EnumerateInstances(namespace, m.group(1), LocalOnly=False,
-                                     DeepInheritance=True)
+        res = mp.EnumerateInstances(namespace, m.group(1), LocalOnly=False,
+                                    DeepInheritance=True)
+        if not shared:
+            return res
+        lst = cache.setdefault((namespace.lower(), m.group(1).lower()), [])
+        lst[:] = res
+        return lst
     mp.ExecQuery = ExecQuery
     return conn
 
